@@ -75,4 +75,10 @@ SEEDS = [
   "edits": [e("filesystem/squashfs/lru.go", "for len(l.cache) > maxBlocks && len(l.cache) > 0 {", "for len(l.cache) > maxBlocks {")]},
  {"name": "c07-refactor-trim-bound-by-max", "properties": ["C07"], "silent": True, "expect": "",
   "edits": [e("filesystem/squashfs/lru.go", "for len(l.cache) > maxBlocks && len(l.cache) > 0 {", "for len(l.cache) > max(maxBlocks, 0) {")]},
+ {"name": "c06-dirrecord-size-read-from-location-field", "properties": ["C06"], "expect": "C06-b|",
+  "edits": [e("filesystem/iso9660/directoryentry.go", "size := binary.LittleEndian.Uint32(b[10:14])", "size := binary.LittleEndian.Uint32(b[2:6])")]},
+ {"name": "c06-dirrecord-location-big-endian-half-wrong", "properties": ["C06"], "expect": "C06-b|",
+  "edits": [e("filesystem/iso9660/directoryentry.go", "binary.BigEndian.PutUint32(b[6:10], de.location)", "binary.BigEndian.PutUint32(b[6:10], de.size)")]},
+ {"name": "c06-dirrecord-volume-sequence-read-big-endian", "properties": ["C06"], "expect": "C06-b|",
+  "edits": [e("filesystem/iso9660/directoryentry.go", "volumeSequence := binary.LittleEndian.Uint16(b[28:30])", "volumeSequence := binary.BigEndian.Uint16(b[28:30])")]},
 ]
